@@ -14,10 +14,29 @@ QUERIES = [teb_ind(1, 'quick'), teb_ind(2, 'quick'), teb_bmc(1, 4, 'thorough'), 
 BOUNDS = 'K2: capacities 1..8'
 OUTSIDE = 'end-to-end composition of the kernels is argued in DESIGN.md, not solved'
 ASSUMPTIONS = ['TransitEvent payload replaced by a shallow 56-byte model (rt/m_transit.c)']
+K3F = [r'get_local_thread_context', r'16PatternFormatter(C2|D2|12_set_pattern)', r'18TimestampFormatter', r'^_ZSt11make_sharedIN5quill', r'16BacktraceStorage', r'TransitEvent7copy_to',
+       r'^_ZN(5quill2v9)?(4Sink|6Filter|6detail11SinkManager|6detail13LoggerManager|6detail20ThreadContextManager|6detail10LoggerBase|10LoggerImplI2FOE|6detail13ThreadContext|6detail18TransitEventBuffer|6detail13BackendWorker|14BackendOptions)D[012]Ev$',
+       r'^_ZNSt23_Sp_counted_ptr_inplace', r'^_ZNSt15_Sp_counted_ptr', r'_cleanup_invalidated_thread_contexts', r'_flush_and_run_active_sinks']
+def k3(c0, c1, tier, timeout=280, wide=1):
+    return Q('K3_min_dispatch_%d_%d%s' % (c0, c1, '' if wide else '_ts20'), 'C03_k3.cpp', 'h_k3_light', defines=['NCTX=2', 'NREC=2', 'CNT0=%d' % c0, 'CNT1=%d' % c1, 'TEBCAP=2', 'TSWIDE=%d' % wide], cuts=TE_CUTS, forbid=K3F,
+             hooks=[r'^_ZN5quill2v96detail13BackendWorker32_dispatch_transit_event_to_sinksE=vh_dispatch'], models=['m_transit.c', 'm_throw.c', 'm_env.c'], libmodels=['m_string.c', 'm_stl.c'],
+             unwind=24, unwindset=['strlen.0:40'], tier=tier, timeout=timeout,
+             bounds='2 thread contexts with %d and %d buffered Log events (' % (c0, c1) + ('any 64-bit timestamps except 2^64-1' if wide else '20-bit timestamps') + ', non-decreasing per thread, ties allowed); real _process_lowest_timestamp_transit_event called until it reports nothing left; _dispatch_transit_event_to_sinks observed through a hook',
+             what='K3: each call dispatches exactly one event, the minimum timestamp over all buffers, and pops exactly that one; returns false iff all buffers are empty; the dispatched sequence is in global non-decreasing timestamp order; every buffered event dispatched once')
+RDLOOP = '_ZN5quill2v96detail13BackendWorker31_read_and_decode_frontend_queueINS1_20BoundedSPSCQueueImplImEEEEmRT_PNS1_13ThreadContextEm.0'
+def k1(nrec, hard, tier, timeout=280):
+    return Q('K1_read_decode_r%d_h%d' % (nrec, hard), 'C03_k3.cpp', 'h_k1_light', defines=['NCTX=1', 'K1REC=%d' % nrec, 'HARDL=%d' % hard, 'TEBCAP=4'], cuts=TE_CUTS,
+             forbid=K3F + [r'18TransitEventBuffer7_expandEv', r'_process_named_args_format_message', r'_populate_formatted_named_args', r'_apply_runtime_metadata', r'^_ZNK?St10_Hashtable'],
+             zero=[r'BackendWorker31_populate_formatted_log_message', r'RdtscClock'], models=['m_transit.c', 'm_throw.c', 'm_env.c'], libmodels=['m_string.c', 'm_stl.c'],
+             unwind=24, unwindset=['strlen.0:40', RDLOOP + ':%d' % (nrec + 2)], tier=tier, timeout=timeout,
+             bounds='one context, %d record(s) written by the real log_statement (symbolic timestamps, User or System clock, last record Log or Flush), hard limit %d, ts_now symbolic (incl. "no grace period")' % (nrec, hard),
+             what='K1: real _read_and_decode_frontend_queue: records decoded in order into the transit buffer with their timestamp / metadata / logger / flush flag; finish_read for exactly the decoded records; a System-clock record newer than ts_now and everything behind it stays queued, unconsumed; User-clock records are never held back; the hard limit stops the read')
+QUERIES += [k1(1, 8, 'thorough', 1700), k1(2, 8, 'thorough', 1700), k1(2, 1, 'thorough', 1700)]
+QUERIES += [k3(2, 0, 'quick'), k3(1, 1, 'quick'), k3(1, 2, 'quick', wide=0), k3(2, 2, 'thorough', timeout=1700, wide=0), k3(1, 2, 'thorough', timeout=1700)]
 # NOTE: harness/C03_backend.cpp + harness/bk.h (kernels K1/K3 on the real BackendWorker) are kept in the tree but NOT registered:
 # at 1-2 contexts x 1-2 records CBMC needed > 60 GB / did not finish in 10 min (see DESIGN.md section 7).
 MANIFEST = {
- 'text': 'Reduced scope. Decided by the solver: kernel K2, the per-thread backend ring (TransitEventBuffer) keeps exact FIFO content across position wrap-around, expansion and shrink, as an inductive step from an arbitrary ring state. The SPSC queue obligations of this property are decided by C01/C02 (exactly-once, in order, across growth), the level gate by C16, the codec by C04. The read/decode loop (K1), the minimum-timestamp dispatch (K3), the clean-up condition (K4) and the poll skeleton (K5) on the real BackendWorker could NOT be brought under the memory/time caps and are not claimed.',
- 'note': 'Transit ring capacities 1,2 (quick) / 4 (thorough); TransitEvent payload replaced by a shallow model. Composition of the kernels is an argument in DESIGN.md, not solved. Trusted: clang IR, translator, CBMC.',
- 'technique': 'CBMC/SAT inductive step over clang IR of the real TransitEventBuffer from a symbolic ring state; native replay',
+ 'text': 'Reduced scope. Decided by the solver on the real code: K2, the per-thread backend ring (TransitEventBuffer) keeps exact FIFO content across position wrap-around, expansion and shrink (inductive step from an arbitrary ring state); K3, the real _process_lowest_timestamp_transit_event dispatches per call exactly one event, the minimum timestamp over all thread buffers, pops exactly that one and reports false iff nothing is buffered, so every buffered event is dispatched once and in global timestamp order; (thorough tier only, expensive) K1, the real _read_and_decode_frontend_queue on records written by the real log_statement. The per-sink fan-out is decided by C16 per_sink_loop and C12 multiline_*, the queues by C01/C02, the level gate by C16, the codec by C04. The poll skeleton (K5), the clean-up condition (K4) and the composition of the kernels are NOT solved (argument in DESIGN.md).',
+ 'note': 'K2: capacities 1,2 (quick) / 4 (thorough). K3: 2 contexts x <= 2 events, light worker (only the members the kernel touches are constructed), dispatch observed by an IR hook. TransitEvent payload replaced by a shallow model. Trusted: clang IR, translator, CBMC.',
+ 'technique': 'CBMC/SAT over clang IR of the real TransitEventBuffer and BackendWorker dispatch kernel from symbolic states; IR-level observation hooks; native replay',
 }
